@@ -1,6 +1,6 @@
 (* Property C04 -- live replication converges: every node ends equal to the primary *)
 (* Statements only: each theorem restates the proved lemma's statement and is closed by [exact]. *)
-From NunDB Require Import Model.Base Model.Pending Model.Parse Model.Node Model.Oplog Model.Cluster Proofs.PendingProofs Proofs.DbProofs Proofs.ClusterProofs Proofs.SyncProofs Proofs.ConvergeProofs.
+From NunDB Require Import Model.Base Model.Pending Model.Parse Model.Node Model.Oplog Model.Cluster Proofs.PendingProofs Proofs.DbProofs Proofs.ClusterProofs Proofs.SyncProofs Proofs.ConvergeProofs Proofs.ConnProofs Proofs.SnapshotReplProofs.
 Local Open Scope Z_scope.
 
 (* the line a primary broadcasts for a write parses back to exactly that write (any value with spaces, any i32 version) *)
@@ -239,7 +239,7 @@ Theorem C04_converges :
          simple_tok dbn ->
          (forall S : str, In S Ss -> simple_tok S) ->
          Formed P dbn Ss cidx lk c ->
-         Forall (ev_ok Ss) evs ->
+         Forall (ConvergeProofs.ev_ok Ss) evs ->
          cl_bound c B ->
          (B + 2 * N.of_nat (Datatypes.length evs) <= 2 ^ 64)%N ->
          quiescent P Ss lk (run P cidx lk c evs) ->
@@ -257,7 +257,7 @@ Theorem C04_convergence_invariant :
          simple_tok dbn ->
          (forall S : str, In S Ss -> simple_tok S) ->
          Formed P dbn Ss cidx lk c ->
-         Forall (ev_ok Ss) evs ->
+         Forall (ConvergeProofs.ev_ok Ss) evs ->
          cl_bound c B ->
          (B + 2 * N.of_nat (Datatypes.length evs) <= 2 ^ 64)%N -> RInv P dbn Ss lk (run P cidx lk c evs).
 Proof. exact C04_convergence_invariant. Qed.
@@ -269,7 +269,7 @@ Theorem C04_converges_reads :
          simple_tok dbn ->
          (forall S : str, In S Ss -> simple_tok S) ->
          Formed P dbn Ss cidx lk c ->
-         Forall (ev_ok Ss) evs ->
+         Forall (ConvergeProofs.ev_ok Ss) evs ->
          cl_bound c B ->
          (B + 2 * N.of_nat (Datatypes.length evs) <= 2 ^ 64)%N ->
          quiescent P Ss lk (run P cidx lk c evs) ->
@@ -363,3 +363,142 @@ Theorem C04_opp_ids_differ :
          end.
 Proof. exact formed_run_opp_differs. Qed.
 Print Assumptions C04_opp_ids_differ.
+
+(* the line a primary queues for a snapshot parses back to the same reclaim flag and the same list of names (names without space, line feed or '|') *)
+Theorem C04_snapshot_line_roundtrip :
+  forall (names : list str) (reclaim : bool),
+         names <> [] ->
+         Forall snap_tok names ->
+         parse_request
+           ("replicate-snapshot " +++ join "|" names +++ " " +++ (if reclaim then "true" else "false")) =
+         POk (RqReplicateSnapshot reclaim names).
+Proof. exact snapshot_line_roundtrip. Qed.
+Print Assumptions C04_snapshot_line_roundtrip.
+
+(* a snapshot request registers the NAMED databases (the selected one only when none is named) and queues exactly one line, carrying those same names *)
+Theorem C04_snapshot_primary_registers :
+  forall (p : node) (c : nat) (line : str) (reclaim : bool) (names : list str),
+         s_auth (get_sess p c) = true ->
+         parse_request (trim_char nl line) = POk (RqSnapshot reclaim names) ->
+         sel_ok p c ->
+         (names = [] -> s_db (get_sess p c) <> None) ->
+         let names' := snap_targets (s_db (get_sess p c)) names in
+         all_dbs p names' ->
+         let res := step p c line in
+         snd res = ROk /\
+         n_snap (fst res) = n_snap p ++ map (fun nm : str => (nm, reclaim)) names' /\
+         n_dbs (fst res) = n_dbs p /\
+         n_repl (fst res) = n_repl p ++ [rp_line (n_clock p) (snap_req names' reclaim)] /\
+         n_clock (fst res) = (n_clock p + 1)%N /\
+         n_sess (fst res) = n_sess p /\
+         n_role (fst res) = n_role p /\
+         n_members (fst res) = n_members p /\
+         n_pending (fst res) = n_pending p /\ n_sup (fst res) = n_sup p /\ n_idmap (fst res) = n_idmap p.
+Proof. exact snapshot_primary_registers. Qed.
+Print Assumptions C04_snapshot_primary_registers.
+
+(* a secondary fed with that line registers the same pairs and acknowledges *)
+Theorem C04_snapshot_secondary_registers :
+  forall (s : node) (cs : nat) (id : N) (reclaim : bool) (names : list str),
+         s_auth (get_sess s cs) = true ->
+         sel_ok s cs ->
+         (id < 2 ^ 64)%N ->
+         names <> [] ->
+         Forall snap_tok names ->
+         all_dbs s names ->
+         let res := step s cs (rp_line id (snap_req names reclaim)) in
+         snd res = ROk /\
+         n_snap (fst res) = n_snap s ++ map (fun nm : str => (nm, reclaim)) names /\
+         n_dbs (fst res) = n_dbs s /\
+         n_repl (fst res) = n_repl s ++ [rp_line (n_clock s) (snap_req names reclaim)] /\
+         n_clock (fst res) = (n_clock s + 1)%N /\
+         s_inbox (get_sess (fst res) cs) = s_inbox (get_sess s cs) ++ [ack_line s id] /\
+         n_role (fst res) = n_role s /\
+         n_members (fst res) = n_members s /\
+         n_pending (fst res) = n_pending s /\ n_sup (fst res) = n_sup s /\ n_idmap (fst res) = n_idmap s.
+Proof. exact snapshot_secondary_registers. Qed.
+Print Assumptions C04_snapshot_secondary_registers.
+
+(* the pairs added to the pending-snapshot list are the same on the primary and on the secondary, whatever database the requesting session had selected *)
+Theorem C04_snapshot_replicas_agree :
+  forall (p : node) (c : nat) (line : str) (reclaim : bool) (names : list str) (s : node) (cs : nat),
+         s_auth (get_sess p c) = true ->
+         parse_request (trim_char nl line) = POk (RqSnapshot reclaim names) ->
+         sel_ok p c ->
+         (names = [] -> s_db (get_sess p c) <> None) ->
+         let names' := snap_targets (s_db (get_sess p c)) names in
+         all_dbs p names' ->
+         Forall snap_tok names' ->
+         (n_clock p < 2 ^ 64)%N ->
+         s_auth (get_sess s cs) = true ->
+         sel_ok s cs ->
+         all_dbs s names' ->
+         let p' := fst (step p c line) in
+         exists (qline : str) (added : list (str * bool)),
+           n_repl p' = n_repl p ++ [qline] /\
+           n_snap p' = n_snap p ++ added /\
+           n_snap (fst (step s cs qline)) = n_snap s ++ added /\
+           added = map (fun nm : str => (nm, reclaim)) names' /\
+           qline = rp_line (n_clock p) (snap_req names' reclaim) /\
+           snd (step p c line) = ROk /\
+           snd (step s cs qline) = ROk /\ n_dbs p' = n_dbs p /\ n_dbs (fst (step s cs qline)) = n_dbs s.
+Proof. exact snapshot_replicas_agree. Qed.
+Print Assumptions C04_snapshot_replicas_agree.
+
+(* when names are given the selected database is snapshotted only if it is named *)
+Theorem C04_snapshot_named_not_selected :
+  forall (p : node) (c : nat) (line : str) (reclaim : bool) (names : list str) 
+           (dbn : str) (added : list (str * bool)) (b : bool),
+         s_auth (get_sess p c) = true ->
+         parse_request (trim_char nl line) = POk (RqSnapshot reclaim names) ->
+         sel_ok p c ->
+         names <> [] ->
+         all_dbs p names ->
+         s_db (get_sess p c) = Some dbn ->
+         n_snap (fst (step p c line)) = n_snap p ++ added -> In (dbn, b) added -> In dbn names.
+Proof. exact snapshot_named_not_selected. Qed.
+Print Assumptions C04_snapshot_named_not_selected.
+
+(* a request naming a database that does not exist changes nothing and queues nothing *)
+Theorem C04_snapshot_missing_db_refused :
+  forall (p : node) (c : nat) (line : str) (reclaim : bool) (names : list str) (nm : str),
+         parse_request (trim_char nl line) = POk (RqSnapshot reclaim names) ->
+         In nm names -> has_db p nm = false -> exists msg : str, step p c line = (p, RError msg).
+Proof. exact snapshot_missing_db_refused. Qed.
+Print Assumptions C04_snapshot_missing_db_refused.
+
+(* kept visible: the agreement needs the run invariant 'a session's selection names an existing database' (ConnProofs.sel_exists) *)
+Theorem C04_snapshot_needs_sel_ok :
+  let r := step ex_ghost 0 "snapshot false e0" in
+         snd r = RError "Database ghost not found" /\
+         n_snap (fst r) = [("e0", false)] /\ n_repl (fst r) = n_repl ex_ghost.
+Proof. exact snapshot_needs_sel_ok. Qed.
+Print Assumptions C04_snapshot_needs_sel_ok.
+
+(* kept visible: a database whose NAME contains '|' is read as two names by the secondary *)
+Theorem C04_snapshot_bar_name_diverges :
+  has_db ex_pb "a|b" = true /\
+         has_db ex_sb "a|b" = true /\
+         (let rp := step ex_pb 0 "snapshot true" in
+          snd rp = ROk /\
+          n_snap (fst rp) = [("a|b", true)] /\
+          n_repl (fst rp) = n_repl ex_pb ++ ["rp 16 replicate-snapshot a|b true"] /\
+          (let rs := step ex_sb 0 "rp 16 replicate-snapshot a|b true" in
+           snd rs = RError "Error trying to snapshot database: Database b not found" /\ n_snap (fst rs) = [])).
+Proof. exact snapshot_bar_name_diverges. Qed.
+Print Assumptions C04_snapshot_bar_name_diverges.
+
+(* non-vacuity: d1 selected, `snapshot false e0` *)
+Theorem C04_snapshot_replicas_example :
+  s_db (get_sess ex_p 0) = Some "d1" /\
+         is_primary ex_p = true /\
+         n_snap ex_p = [] /\
+         n_snap ex_s = [] /\
+         (let rp := step ex_p 0 "snapshot false e0" in
+          snd rp = ROk /\
+          n_snap (fst rp) = [("e0", false)] /\
+          n_repl (fst rp) = n_repl ex_p ++ ["rp 19 replicate-snapshot e0 false"] /\
+          (let rs := step ex_s 0 "rp 19 replicate-snapshot e0 false" in
+           snd rs = ROk /\ n_snap (fst rs) = [("e0", false)] /\ n_dbs (fst rs) = n_dbs ex_s)).
+Proof. exact snapshot_replicas_example. Qed.
+Print Assumptions C04_snapshot_replicas_example.
